@@ -107,4 +107,24 @@ PROPS = {
             "depends on C01 through the regenerated walker table",
         ],
     },
+    "C09": {
+        "theorems": {
+            "Solstat.Props.C09": [
+                "matchVersionAt_full", "lastVersionMatch_prefix", "versionPieces_of_plain", "versionOfValue_plain",
+                "ops_no_digit", "verLt_iff", "gate_lt_mono", "gate_ge_mono", "safeMath_gate", "safeMath_never_both",
+                "stringErrors_gate", "shortRevert_gate", "no_version_silent", "safeMathCalls_exact", "versionOf_eq",
+                "solidityPragmas_insert", "versionOf_insert", "other_pragma_noSolidity",
+            ],
+            "Solstat.Props.Compose": ["allNodes_sourceUnit", "extract_sourceUnit"],
+            "Solstat.Props.C01": ["C01", "blocked_empty", "kinds_by_name"],
+        },
+        "obs": [("ver", []), ("det", ["--nolines", "--hostile", "safe_math", "string_error", "short_revert"])],
+        "kinds": ["VER", "DET"],
+        "groups": ["safemath", "stringerror", "shortrevert"],
+        "assumptions": [
+            "regex crate: `\\d+\\.\\d+\\.+\\d+` behaves on ASCII input as the modelled matcher (leftmost-first, greedy, non-overlapping; last match kept) — observed exhaustively on all strings of length <= 5 (quick) / 6 (thorough) over {0,1,8,9,'.',' ','^','>','='} and on the property's 6 x 246 table",
+            "version components below 2^31 and ASCII pragma values (beyond that the code declines to analyse: no version); non-ASCII values are outside the model (regex \\d is Unicode-aware)",
+            "depends on C01 through the regenerated walker table",
+        ],
+    },
 }
